@@ -9,6 +9,8 @@ import IgVerif.Model.Path
 import IgVerif.Model.Float
 import IgVerif.Gen.C18Powers
 import IgVerif.Model.Names
+import IgVerif.Model.CType
+import IgVerif.Model.Scope
 /-! `igdriver <model>`: reads one op per line on stdin, prints one answer per line.
 Byte strings are hex ("-" = empty). -/
 open IgVerif
@@ -406,6 +408,131 @@ def namesStep (m : Nm.HMap) (toks : List String) : IO (Nm.HMap × String) := do
     return (r.1, match r.2 with | some x => String.ofList x | none => "none")
   | _ => return (m, "bad-op")
 
+/-! ### ctype / scope -/
+def optName (s : String) : Option String := if s == "-" then none else some (bytesToString (unhex s))
+def optNat (s : String) : Option Nat := if s == "-" then none else s.toNat?
+
+mutual
+def parseCT : Nat → List String → Option (CT.CType × List String)
+  | 0, _ => none
+  | fuel+1, toks =>
+    match toks with
+    | "B" :: h :: rest => some (.base (bytesToString (unhex h)), rest)
+    | "C" :: rest => (parseCT fuel rest).map fun p => (.const p.1, p.2)
+    | "P" :: rest => (parseCT fuel rest).map fun p => (.ptr p.1, p.2)
+    | "L" :: rest => (parseCT fuel rest).map fun p => (.lref p.1, p.2)
+    | "R" :: rest => (parseCT fuel rest).map fun p => (.rref p.1, p.2)
+    | "A" :: n :: rest => (parseCT fuel rest).map fun p => (.arr p.1 (optNat n), p.2)
+    | "F" :: v :: k :: rest =>
+      match parseCT fuel rest with
+      | some (r, rest1) =>
+        match parseCPs fuel (k.toNat?.getD 0) rest1 with
+        | some (ps, rest2) => some (.fn r ps (v == "1"), rest2)
+        | none => none
+      | none => none
+    | _ => none
+def parseCPs : Nat → Nat → List String → Option (CT.CParams × List String)
+  | 0, _, _ => none
+  | _, 0, toks => some (.nil, toks)
+  | fuel+1, k+1, toks =>
+    match toks with
+    | nm :: rest =>
+      match parseCT fuel rest with
+      | some (t, rest1) =>
+        match parseCPs fuel k rest1 with
+        | some (ps, rest2) => some (.cons t (optName nm) ps, rest2)
+        | none => none
+      | none => none
+    | [] => none
+end
+
+def parseCD : Nat → List String → Option (CT.CDecl × List String)
+  | 0, _ => none
+  | fuel+1, toks =>
+    match toks with
+    | "n" :: h :: rest => some (.name (optName h), rest)
+    | "p" :: c :: rest => (parseCD fuel rest).map fun p => (.ptr (c == "1") p.1, p.2)
+    | "l" :: rest => (parseCD fuel rest).map fun p => (.lref p.1, p.2)
+    | "r" :: rest => (parseCD fuel rest).map fun p => (.rref p.1, p.2)
+    | "(" :: rest => (parseCD fuel rest).map fun p => (.paren p.1, p.2)
+    | "a" :: n :: rest => (parseCD fuel rest).map fun p => (.arr p.1 (optNat n), p.2)
+    | "f" :: v :: k :: rest =>
+      match parseCD fuel rest with
+      | some (d, rest1) =>
+        match parseCPs fuel (k.toNat?.getD 0) rest1 with
+        | some (ps, rest2) => some (.fn d ps (v == "1"), rest2)
+        | none => none
+      | none => none
+    | _ => none
+
+def tokText : CT.Tok → String
+  | .ident s => s | .star => "*" | .amp => "&" | .ampamp => "&&" | .kconst => "const" | .lp => "(" | .rp => ")"
+  | .lb => "[" | .rb => "]" | .num n => toString n | .comma => "," | .ellipsis => "..."
+
+def ctypeStep (_ : Unit) (toks : List String) : IO (Unit × String) := do
+  match toks with
+  | "print" :: nm :: rest =>
+    match parseCT (rest.length + 1) rest with
+    | some (t, []) =>
+      let out := CT.oi t [] (CT.nameToks (optName nm))
+      return ((), s!"wf={CT.WF t} " ++ " ".intercalate (out.map tokText))
+    | _ => return ((), "bad-op")
+  | "decl" :: nm :: rest =>
+    -- decl <name> <base type> <concrete declarator> <expected type>: parse (unroll) then print
+    match parseCT (rest.length + 1) rest with
+    | some (b, rest1) =>
+      match parseCD (rest1.length + 1) rest1 with
+      | some (cd, rest2) =>
+        match parseCT (rest2.length + 1) rest2 with
+        | some (expect, []) =>
+          let t := CT.unroll (CT.mods cd) b
+          let out := CT.oi t [] (CT.nameToks (optName nm))
+          return ((), s!"wf={CT.WF t} same={t.beq expect} " ++ " ".intercalate (out.map tokText))
+        | _ => return ((), "bad-op")
+      | none => return ((), "bad-op")
+    | none => return ((), "bad-op")
+  | _ => return ((), "bad-op")
+
+mutual
+def parseScope : Nat → List String → Option (Sc.Scope × List String)
+  | 0, _ => none
+  | fuel+1, toks =>
+    match toks with
+    | "S" :: nt :: rest =>
+      match parseTypes (nt.toNat?.getD 0) rest with
+      | some (types, nu :: rest1) =>
+        match parseScopes fuel (nu.toNat?.getD 0) rest1 with
+        | some (us, nb :: rest2) =>
+          match parseScopes fuel (nb.toNat?.getD 0) rest2 with
+          | some (bs, rest3) => some (.mk types us bs, rest3)
+          | none => none
+        | _ => none
+      | _ => none
+    | _ => none
+def parseScopes : Nat → Nat → List String → Option (List Sc.Scope × List String)
+  | 0, _, _ => none
+  | _, 0, toks => some ([], toks)
+  | fuel+1, k+1, toks =>
+    match parseScope fuel toks with
+    | some (s, rest) =>
+      match parseScopes fuel k rest with
+      | some (ss, rest2) => some (s :: ss, rest2)
+      | none => none
+    | none => none
+def parseTypes : Nat → List String → Option (List (String × Nat) × List String)
+  | 0, toks => some ([], toks)
+  | k+1, nm :: e :: rest => (parseTypes k rest).map fun p => ((nm, e.toNat?.getD 0) :: p.1, p.2)
+  | _, _ => none
+end
+
+def scopeStep (_ : Unit) (toks : List String) : IO (Unit × String) := do
+  match toks with
+  | "find" :: nm :: k :: rest =>
+    match parseScopes (rest.length + 1) (k.toNat?.getD 0) rest with
+    | some (chain, []) => return ((), match Sc.findType chain nm with | some e => toString e | none => "none")
+    | _ => return ((), "bad-op")
+  | _ => return ((), "bad-op")
+
 def main (args : List String) : IO UInt32 := do
   let stdin ← IO.getStdin
   match args with
@@ -417,4 +544,6 @@ def main (args : List String) : IO UInt32 := do
   | ["path"] => loop stdin pathStep (); return 0
   | ["float"] => loop stdin floatStep (); return 0
   | ["names"] => loop stdin namesStep ([] : Nm.HMap); return 0
+  | ["ctype"] => loop stdin ctypeStep (); return 0
+  | ["scope"] => loop stdin scopeStep (); return 0
   | _ => IO.eprintln "usage: igdriver <model>"; return 2
